@@ -46,10 +46,12 @@ Definition mtype_bit (t : mtype) : Z :=
 
 (* API calls of a script; windows are named by their address = 1 + creation index *)
 (* the events a handler can be bound to: TICKIT_WINDOW_ON_KEY, _MOUSE, _EXPOSE, _FOCUS, _GEOMCHANGE *)
-Inductive hkind := HKey | HMouse | HExpose | HFocus | HGeom.
+(* HDestroy: a binding for TICKIT_WINDOW_ON_DESTROY.  The model records it but does NOT run it: what a DESTROY handler
+   does is outside the model (scripts with such handlers are judged by the discipline on the observed trace only) *)
+Inductive hkind := HKey | HMouse | HExpose | HFocus | HGeom | HDestroy.
 Definition hkind_eqb (a b : hkind) : bool :=
   match a, b with
-  | HKey, HKey | HMouse, HMouse | HExpose, HExpose | HFocus, HFocus | HGeom, HGeom => true
+  | HKey, HKey | HMouse, HMouse | HExpose, HExpose | HFocus, HFocus | HGeom, HGeom | HDestroy, HDestroy => true
   | _, _ => false
   end.
 
@@ -503,7 +505,11 @@ Definition root_cleanup (fuel : nat) (w : positive) : M unit :=
   cw <- getw w ;;
   if w_isroot cw then (if v_root_keeps_q V then ret tt else free_queue fuel w) else ret tt.
 
-(* tickit_window_unref / tickit_window_destroy and its loop over the children *)
+(* tickit_window_unref / tickit_window_destroy and its loop over the children.
+   Not modelled: the [is_destroying] flag of fixes/C08-22 (set when destroy begins; unref does not destroy such a window
+   again, and destroy's loop does not unref such a child).  Between the beginning of a window's destruction and its
+   free() nothing takes or drops a reference on it unless one of its DESTROY handlers makes calls -- and those are
+   outside the model -- so the flag is never looked at while it is set. *)
 Fixpoint unref (fuel : nat) (w : positive) {struct fuel} : M unit :=
   match fuel with
   | O => nofuel
